@@ -92,6 +92,13 @@ CHECKS = {
        "TLC accepts the recorded schedule only if every lock attempt succeeded or failed as the specification says and every successful read saw exactly the committed version (marker row).",
   note=NOTE + "Linux /proc/locks; the marker row identifies the committed version; error => zero callbacks is checked on the recorded results",
   design="6 C07, 3.6"),
+ "C09": dict(
+  technique="TLA+ spec Journal.tla (writer transaction at system-call grain, crashes, SQLite's recovery rule vs sqlittle's hot-journal rule) model-checked; crash-point enumeration on a real SQLite writer under an LD_PRELOAD shim, syscall traces and reader outcomes validated by TLC (TraceJournal.tla)",
+  text="Journal.tla models every write/sync/truncate/unlink of a spilling SQLite transaction (journal segments, header magic/count protocol, write-ahead rule, DELETE/TRUNCATE/PERSIST finalisation, synchronous FULL/OFF), torn writes and process death; TLC checks NeverReadsUnfinished, PostCommitReadable and AtomicCommit for all 6 mode combinations. "
+       "A real SQLite writer is killed before its k-th file operation for every k and in the middle of every write (sampled in the quick tier, always all database writes and header/finalisation calls) for several page sizes; each image is read by a fresh sqlittle handle and by a handle opened before the crash (cached and uncached) and recovered by real SQLite. "
+       "TLC replays the completed system calls through the writer actions (so the model of SQLite is validated against real SQLite), requires SqliteRecovered = what SQLite really recovered, judges C09 on the recorded outcomes and compares them with the model's reader rule.",
+  note=NOTE + "crash = process death (completed writes persist in order); no power-loss reordering; journal modes MEMORY/OFF/WAL out of scope; LD_PRELOAD must see all file operations (unexplained call sequences fail the run with exit 2)",
+  design="6 C09, 3.7", category="model_checking"),
 }
 
 NOT_YET = "check not built yet (work in progress; see DESIGN.md section 9 order of work)"
